@@ -105,6 +105,15 @@ func (e *Encoder) writeValue(val reflect.Value, tagType byte) error {
 		}
 
 		if tagType == TagByteArray {
+			if val.Kind() == reflect.Array {
+				// Bytes and UnsafePointer want a slice; slicing wants an addressable array
+				if !val.CanAddr() {
+					cp := reflect.New(val.Type()).Elem()
+					cp.Set(val)
+					val = cp
+				}
+				val = val.Slice(0, n)
+			}
 			var data []byte
 			switch val.Type().Elem().Kind() {
 			case reflect.Bool:
